@@ -65,8 +65,12 @@ def run_text_case(ref, wd, tmpd, canary, r, res, v, entry, rnd, tid):
     before_s = set(os.listdir(systmp))
     before_c = snapshot(canary)
     before_w = snapshot(wd)
-    got, msg = tl.call_entry(ref, entry, la, le, kw, wd, nl_a, True, tag='c15')
+    # the library's own naming convention for an actual result kept in the temporary directory: actual-<reference name>
+    own_actual = os.path.join(tmpd, 'actual-ref_c15.txt') if (entry == 'file' and tid % 4 == 1) else None
+    got, msg = tl.call_entry(ref, entry, la, le, kw, wd, nl_a, True, tag='c15', actual_path=own_actual)
     after_tmp = snapshot(tmpd)
+    if own_actual:
+        after_tmp.pop(os.path.relpath(own_actual, tmpd), None)
     after_c = snapshot(canary)
     after_w = snapshot(wd)
     # files created/changed in the work dir other than the ones the harness wrote itself
@@ -102,8 +106,13 @@ def run_text_case(ref, wd, tmpd, canary, r, res, v, entry, rnd, tid):
                     ev['actual_faithful'] = False
                     ev['actual_file_lines'] = read_lines(a_path).splitlines()
             if kind in ('raw', '') and entry == 'file':
-                if os.path.abspath(a_path) != os.path.abspath(os.path.join(wd, 'act_c15.txt')):
+                given = own_actual or os.path.join(wd, 'act_c15.txt')
+                if os.path.abspath(a_path) != os.path.abspath(given):
                     ev['actual_faithful'] = False
+                elif read_lines(a_path).splitlines() != la:
+                    # the file named as actual must still hold the actual content (nothing may overwrite the user's file)
+                    ev['actual_faithful'] = False
+                    ev['actual_file_lines'] = read_lines(a_path).splitlines()
             if kind == 'post-processed':
                 ev['has_post'] = True
                 pa, pe = body_lines(read_lines(a_path)), body_lines(read_lines(e_path))
